@@ -376,6 +376,13 @@ def run_random(tr, spec):
             text, _ = gen_list(rng, negative=True)
             for _ in range(3):     # an input that was refused once stays refused
                 drive(tr, text, "negative", must_reject=True)
+            # negative distances through the generated forms: the negative value may be the first argument, the last, or lie inside a
+            # descending range that starts at a legal distance and runs through the origin
+            a, x, n = rng.randint(0, 3), rng.randint(1, 4), rng.randint(2, 6)
+            neg = rng.choice([f"linspace(-{x}, {a + 1}, {n})", f"linspace({a + 1}, -{x}, {n})", f"linspace({a}.5, -0.{x})",
+                              f"range(-{x}, {a + 1})", f"arange(-{x}.5, {a + 1}, 0.5)",
+                              f"range({a}, -{x + 1}, -1)", f"arange({a}.5, -{x}, -0.5)", f"range({a}, -{x}.5, -1)"])
+            drive(tr, neg, "negative", must_reject=True)
         if it % 10 == 7:
             # decimal steps with the stop exactly a whole number of steps from the start (the regime where rounding decides about the
             # last point): only the intended answer and numpy.arange's are acceptable
@@ -395,12 +402,16 @@ def run_random(tr, spec):
         if it % 10 == 5:
             # the same array through several syntaxes: hash must depend on the array only
             k = rng.choice([2, 3, 4, 5])
-            start = rng.randint(1, 9)
+            # every third group starts exactly at the origin (a legal distance): descending forms reach the zero from above, and a
+            # zero that comes out as -0.0 is the same distance but different bytes
+            start = 0 if rng.random() < 0.34 else rng.randint(1, 9)
             ints = [Fraction(start + i) for i in range(k)]
             texts = ["[" + ", ".join(str(int(v)) for v in ints) + "]",
                      "(" + ",".join(render(rng, v) for v in reversed(ints)) + ")",
                      f"linspace({start}, {start + k - 1}, {k})",
-                     f"range({start}, {start + k})", f"arange({start},{start + k},1)"]
+                     f"range({start}, {start + k})", f"arange({start},{start + k},1)",
+                     f"linspace({start + k - 1}, {start}, {k})",
+                     f"range({start + k - 1}, {start - 1}, -1)", f"arange({start + k - 1}.0, {start - 0.5}, -1.0)"]
             objs = [drive(tr, t, "same-array-group") for t in texts]
             objs = [o for o in objs if o is not None]
             if len(objs) == len(texts):
